@@ -1,10 +1,10 @@
-"""runs tools_eval_harmless.sh over every /tmp/wt-harm/<P>/<hK> (or the dirs given), restricted to the checks whose units read a touched file; 3 patches at a time"""
+"""runs tools_eval_harmless.sh over every kept behaviour-preserving refactoring /verif/harmless/<Cxx-hK> (or the dirs given), restricted to the checks whose units read a touched file; 3 patches at a time"""
 import glob, os, re, subprocess, sys
 from concurrent.futures import ThreadPoolExecutor
 MAP = {"_array_types.py": "C01 C02 C03 C04 C12 C13 C14 C15 C16 C17 C20", "_decorator.py": "C02 C05 C06 C07 C12 C13 C17 C19", "_storage.py": "C01 C02 C04 C05 C06 C07 C08 C09 C12 C13 C16",
        "_pytree_type.py": "C01 C02 C03 C04 C06 C08 C09 C12 C13 C16 C17", "_import_hook.py": "C10 C11 C17 C18 C19", "_config.py": "C19", "_pytest_plugin.py": "C11", "_ipython_extension.py": "C10 C11"}
 ALL = " ".join(f"C{i:02d}" for i in range(1, 21))
-dirs = sys.argv[1:] or sorted(glob.glob("/tmp/wt-harm/*/h*"))
+dirs = sys.argv[1:] or sorted(glob.glob("/verif/harmless/*"))
 def run(d):
     files = set(re.findall(r"^\+\+\+ b/jaxtyping/(\S+)", open(os.path.join(d, "patch.diff")).read(), re.M))
     props = set()
